@@ -357,7 +357,7 @@ fn rand_attrs(r: &mut Rng) -> Attrs {
 }
 
 /// element boundaries of a text in the document's offset unit
-fn text_positions<T: ReadTxn>(chunks: &[yrs::types::text::Diff<YChange>], _txn: &T, bytes: bool) -> Vec<u32> {
+pub fn text_positions<T: ReadTxn>(chunks: &[yrs::types::text::Diff<YChange>], _txn: &T, bytes: bool) -> Vec<u32> {
     let mut pos = vec![0u32]; let mut cur = 0u32;
     for d in chunks {
         match &d.insert {
@@ -545,6 +545,33 @@ pub fn local_txn(rep: &Replica, r: &mut Rng, cfg: &EditCfg, bytes: bool, max_cal
         let mut txn = rep.doc.transact_mut();
         let n = r.range(1, max_calls);
         for _ in 0..n { random_call(&rep.doc, &mut txn, r, cfg, bytes, script, tag); }
+    }
+    (rep.drain1(), rep.drain2())
+}
+
+/// One local transaction of an editor session: the replica keeps a cursor in the root text and one in the root array and mostly
+/// continues typing where it stopped (so consecutive transactions produce runs with consecutive ids and chained origins, which is
+/// what block squashing is about), sometimes moves the cursor, sometimes deletes backwards.
+pub fn typing_txn(rep: &Replica, r: &mut Rng, cursor: &mut (u32, u32), script: &mut Vec<String>, tag: &mut u64) -> (Vec<Vec<u8>>, Vec<Vec<u8>>) {
+    rep.drain1(); rep.drain2();
+    {
+        let mut txn = rep.doc.transact_mut();
+        let n = r.range(1, 2);
+        for _ in 0..n {
+            if r.chance(1, 2) {
+                let t = txn.get_or_insert_text(ROOT_TEXT);
+                let len = t.len(&txn);
+                if cursor.0 > len || r.chance(1, 6) { cursor.0 = r.below(len as u64 + 1) as u32; }
+                if r.chance(1, 6) && cursor.0 > 0 { let l = r.range(1, cursor.0.min(2) as u64) as u32; cursor.0 -= l; script.push(format!("t.remove_range({},{l})", cursor.0)); t.remove_range(&mut txn, cursor.0, l); }
+                else { let s: String = (0..r.range(1, 2)).map(|_| *r.pick(&["a", "b", "c", "d", "e", "x", "y", "z"])).collect(); script.push(format!("t.insert({},{s:?})", cursor.0)); t.insert(&mut txn, cursor.0, &s); cursor.0 += s.len() as u32; }
+            } else {
+                let a = txn.get_or_insert_array(ROOT_ARRAY);
+                let len = a.len(&txn);
+                if cursor.1 > len || r.chance(1, 6) { cursor.1 = r.below(len as u64 + 1) as u32; }
+                if r.chance(1, 6) && cursor.1 > 0 { cursor.1 -= 1; script.push(format!("a.remove({})", cursor.1)); a.remove(&mut txn, cursor.1); }
+                else { *tag += 1; let v = Any::Number((*tag * 1000) as f64); script.push(format!("a.insert({},{})", cursor.1, print_any(&v))); a.insert(&mut txn, cursor.1, v); cursor.1 += 1; }
+            }
+        }
     }
     (rep.drain1(), rep.drain2())
 }
